@@ -3443,7 +3443,13 @@ func (n *EncapNLRI) decodeFromBytes(data []byte, options ...*MarshallingOption) 
 	default:
 		return NewMessageError(BGP_ERROR_UPDATE_MESSAGE_ERROR, BGP_ERROR_SUB_INVALID_NETWORK_FIELD, nil, "nlri length isn't valid")
 	}
-	addr, _ := netip.AddrFromSlice(data[1:])
+	// the endpoint is as long as the length field says; data still holds the
+	// NLRI that follow in the same MP_REACH_NLRI / MP_UNREACH_NLRI
+	addrlen := int(data[0]) / 8
+	if len(data) < 1+addrlen {
+		return NewMessageError(BGP_ERROR_UPDATE_MESSAGE_ERROR, BGP_ERROR_SUB_INVALID_NETWORK_FIELD, nil, "not all encap nlri bytes available")
+	}
+	addr, _ := netip.AddrFromSlice(data[1 : 1+addrlen])
 	n.Endpoint = addr
 	return nil
 }
